@@ -25,7 +25,7 @@ bytering_init(struct bytering_head *r, void *buf, unsigned int size)
 static inline void __bytering_fixup(struct bytering_head *r,
                                     unsigned char **fixed)
 {
-    if (r->end >= *fixed)
+    if (*fixed >= r->end)
         *fixed = r->start;
 }
 
